@@ -253,6 +253,15 @@ class _CommonFile:
             self._source.append((_RECORD, key))
         return existing
 
+    def _delete_record(self, key):
+        """
+        helper for deleting a record, which also drops its source line
+        (so that a later re-add does not leave two source entries for the key).
+        raises KeyError if the key is not present.
+        """
+        del self._records[key]
+        self._source.remove((_RECORD, key))
+
     def _autosave(self):
         """subclass helper to call save() after any changes"""
         if self.autosave and self._path:
@@ -744,7 +753,7 @@ class HtpasswdFile(_CommonFile):
             * ``False`` if user not found.
         """
         try:
-            del self._records[self._encode_user(user)]
+            self._delete_record(self._encode_user(user))
         except KeyError:
             return False
         self._autosave()
@@ -1058,7 +1067,7 @@ class HtdigestFile(_CommonFile):
         """
         key = self._encode_key(user, realm)
         try:
-            del self._records[key]
+            self._delete_record(key)
         except KeyError:
             return False
         self._autosave()
@@ -1075,7 +1084,7 @@ class HtdigestFile(_CommonFile):
         records = self._records
         keys = [key for key in records if key[1] == realm]
         for key in keys:
-            del records[key]
+            self._delete_record(key)
         self._autosave()
         return len(keys)
 
